@@ -162,7 +162,7 @@ sample_name = st.one_of(st.binary(max_size=22), st.binary(max_size=22), vs.bytes
 @st.composite
 def sample(draw):
     return {
-        "data": draw(st.one_of(st.binary(max_size=64), st.binary(max_size=2048), vs.bytes_with_magic(64))).hex(),
+        "data": draw(st.one_of(st.just(b""), st.binary(max_size=64), st.binary(max_size=2048), vs.bytes_with_magic(64))).hex(),  # a slot with no frames yet is a sample too
         "format": draw(st.sampled_from(["int8", "int16", "float32"])),
         "channels": draw(st.sampled_from(["mono", "stereo"])),
         "rate": draw(vs.u32(extra=(44100, 48000, 8000))),
